@@ -160,7 +160,25 @@ func HarnessC04Statement() {
 		g.AddTriples(ctx, dtriples(ds))
 		return ds
 	}
-	dg, dh := mkGraph("?g", K), mkGraph("?h", verif.Param("KH", K))
+	temporalG := verif.Param("CASE", -1) == 12
+	mkGraphT := func(name string, K int) []*dspec {
+		g, err := st.NewGraph(ctx, name)
+		verif.Assume(err == nil)
+		n := verif.Choice(name+".n", K+1)
+		var ds []*dspec
+		for i := 0; i < n; i++ {
+			ds = append(ds, symDataX(name, true, []int{0}, nil))
+		}
+		g.AddTriples(ctx, dtriples(ds))
+		return ds
+	}
+	var dg, dh []*dspec
+	if temporalG {
+		allTemporal = true
+		dg, dh = mkGraphT("?g", K), mkGraph("?h", verif.Param("KH", K))
+	} else {
+		dg, dh = mkGraph("?g", K), mkGraph("?h", verif.Param("KH", K))
+	}
 	expG, expH := pre(dg), pre(dh)
 	names := []string{"?g", "?h"}
 	wantErr := false
@@ -179,7 +197,7 @@ func HarnessC04Statement() {
 	}
 	cs := verif.Param("CASE", -1)
 	if cs < 0 {
-		cs = verif.Choice("case", 12)
+		cs = verif.Choice("case", 13)
 	}
 	switch cs {
 	case 0:
@@ -221,6 +239,12 @@ func HarnessC04Statement() {
 		// triples and the extra fact on one fresh blank node
 		q = "construct { ?s \"b\"@[] ?o ; \"c\"@[] /u<a> } into ?h from ?g where { ?s \"a\"@[] ?o } ;"
 		reified = true // (the statement itself is not added, only its reification)
+	case 12:
+		// a template predicate whose anchor is a binding: instantiated per row with that row's anchor
+		q = "construct { ?s \"b\"@[?t] ?o } into ?h from ?g where { ?s \"a\"@[?t] ?o } ;"
+		for _, d := range dg {
+			expH = append(expH, expected{tval{sb: d.sb, pb: 'b', ob: d.ob, ok: d.ok, pk: 1, pa: d.pa}, verif.And(d.pk == 1, d.pb == 'a')})
+		}
 	case 11:
 		// reification where rows differ only in a binding used after the ';': still
 		// one fresh blank node (with its three reification triples and its extra
